@@ -786,6 +786,30 @@ def caseExecGo (subject : List Char) : Bool → Nat → List (List (List Pattern
 def caseExec (items : List (List (List PatternChar) × CaseCont)) (subject : List Char) : List Nat :=
   caseExecGo subject false 0 items
 
+/-- `matches` when the expansion of an alternative can fail (`expand_word_attr(env, pattern).await?`):
+    `none` in the list = that alternative's expansion is an error; result `none` = the error propagates.
+    Alternatives after a match are not expanded. -/
+def itemMatchesE (subject : List Char) : List (Option (List PatternChar)) → Option Bool
+  | [] => some false
+  | none :: _ => none
+  | some p :: r => if itemMatches subject [p] then some true else itemMatchesE subject r
+
+/-- `execute` with failing expansions: (bodies run, aborted).  An item reached by `;&` is not tested, so its
+    patterns are not expanded. -/
+def caseExecEGo (subject : List Char) :
+    Bool → Nat → List (List (Option (List PatternChar)) × CaseCont) → List Nat × Bool
+  | _, _, [] => ([], false)
+  | falling, i, (alts, c) :: rest =>
+    let hit : Option Bool := if falling then some true else itemMatchesE subject alts
+    match hit with
+    | none => ([], true)
+    | some false => caseExecEGo subject false (i + 1) rest
+    | some true =>
+      match c with
+      | .brk => ([i], false)
+      | .fallThrough => let r := caseExecEGo subject true (i + 1) rest; (i :: r.1, r.2)
+      | .cont => let r := caseExecEGo subject false (i + 1) rest; (i :: r.1, r.2)
+
 /-- `AttrChar` reduced to what `attr_fnmatch.rs` reads -/
 structure AttrChar where
   value : Char
